@@ -28,6 +28,7 @@ import (
 	"github.com/storacha/go-ucanto/transport/car/request"
 	"github.com/storacha/go-ucanto/transport/car/response"
 	thttp "github.com/storacha/go-ucanto/transport/http"
+	"github.com/storacha/go-ucanto/ucan"
 )
 
 func init() {
@@ -454,6 +455,81 @@ func execRoundtrip(a []string) Result {
 				sort.Strings(got)
 				sort.Strings(want)
 				chk(strings.Join(got, ",") == strings.Join(want, ","), "receipt list changed")
+			}
+		}
+	}
+	// 5. one message carrying invocations AND receipts for them, the receipts embedding an effect
+	// invocation that is not itself part of the batch, with ran embedded or bare
+	if svc != nil && len(invs) > 0 {
+		fxInv, ferr := invocation.Invoke(svc, svc, ucan.NewCapability("effect/run", svc.DID().String(), NbMap{F: map[string]any{}}), delegation.WithNonce("fx"), delegation.WithNoExpiration())
+		if ferr == nil {
+			var rcpts []receipt.AnyReceipt
+			for k, inv := range invs {
+				var rn ran.Ran = ran.FromInvocation(inv)
+				if (k+nattach)%2 == 1 {
+					rn = ran.FromLink(inv.Link())
+				}
+				opts := []receipt.Option{receipt.WithFork(fx.FromInvocation(fxInv))}
+				if k%2 == 1 {
+					opts = []receipt.Option{receipt.WithJoin(fx.FromInvocation(fxInv))}
+				}
+				rc, err := receipt.Issue(svc, result.Ok[okOut, ipld.Builder](okOut{int64(k)}), rn, opts...)
+				if err == nil {
+					rcpts = append(rcpts, rc)
+				}
+			}
+			for _, codec := range []string{"request", "response"} {
+				both, err := message.Build(invs, rcpts)
+				if err != nil {
+					chk(false, "message.Build(invocations, receipts): "+err.Error())
+					continue
+				}
+				var back message.AgentMessage
+				if codec == "request" {
+					req, _ := request.Encode(both)
+					body, _ := io.ReadAll(req.Body())
+					back, err = request.Decode(thttp.NewHTTPRequest(bytes.NewReader(body), req.Headers()))
+				} else {
+					hres, _ := response.Encode(both)
+					body, _ := io.ReadAll(hres.Body())
+					back, err = response.Decode(responseOf(body))
+				}
+				if err != nil {
+					chk(false, codec+" codec: message with invocations and receipts no longer decodes: "+err.Error())
+					continue
+				}
+				chk(len(back.Invocations()) == len(invs), codec+" codec: invocation list of a mixed message changed")
+				found := false
+				for b := range back.Blocks() {
+					if b.Link().String() == fxInv.Link().String() {
+						found = true
+					}
+				}
+				chk(found || len(rcpts) == 0, codec+" codec: the invocation embedded as an effect of a receipt is lost when the message also lists the receipt's invocation")
+				rdr, _ := receipt.NewReceiptReader[ipld.Node, ipld.Node](anyResultSchema)
+				for _, inv := range invs {
+					if rl, ok := back.Get(inv.Link()); ok && rdr != nil {
+						if rc, err := rdr.Read(rl, back.Blocks()); err == nil {
+							e := rc.Fx()
+							emb := false
+							for _, f := range e.Fork() {
+								if _, ok := f.Invocation(); ok {
+									emb = true
+								}
+							}
+							if j := e.Join(); j != (fx.Effect{}) {
+								if _, ok := j.Invocation(); ok {
+									emb = true
+								}
+							}
+							chk(emb, codec+" codec: an effect issued as an embedded invocation reads back as a bare link")
+						} else {
+							chk(false, codec+" codec: receipt of a mixed message unreadable: "+err.Error())
+						}
+					} else {
+						chk(len(rcpts) < len(invs), codec+" codec: receipt of a listed invocation not found")
+					}
+				}
 			}
 		}
 	}
